@@ -44,7 +44,7 @@ type LoadOpts struct {
 	Env     []string          // extra env (GOARCH=386)
 	Overlay map[string][]byte // packages overlay
 	Variant string
-	Syntax  bool // LoadSyntax only (no deps' syntax) – cheaper
+	Syntax  bool   // LoadSyntax only (no deps' syntax) – cheaper
 	Pattern string // default "./..."
 	// AllowErrorsIn: package rel paths whose type errors are tolerated (none by default)
 }
